@@ -251,7 +251,69 @@ def big_shape(shape):
     return tuple(26 + (n - 4) % 15 for n in shape)
 
 
-dx_strategy = st.one_of(st.sampled_from(DXS), U.nice_float(0.01, 20.0))
+# exactly 1 mm is drawn often: it is the value strip_latcal() leaves behind for "pixels", and 0 is the constructor's "no lateral calibration"
+dx_strategy = st.one_of(st.sampled_from(DXS), U.nice_float(0.01, 20.0), st.just(1.0))
+
+
+# ---- how an Interferogram comes to hold its sample spacing (constructor arguments, metadata, calibration methods) -----------------
+BUILDS = ['plain', 'plain', 'assigned', 'meta', 'meta', 'meta-kw', 'dx0-meta-assigned', 'latcal-from-0', 'latcal-from-1', 'relatcal']
+build_strategy = st.fixed_dictionaries({
+    'how': st.sampled_from(BUILDS),
+    # instrument metadata as io.read_zygo_dat ('lateral_resolution', 'wavelength') / read_zygo_datx ('Lateral Resolution', 'Wavelength')
+    # report it, in metres; the values name another spacing than the one given (or the same one: 1e-3 m == 1 mm), or 0 (not recorded)
+    'reskey': st.sampled_from(['lateral_resolution', 'Lateral Resolution', 'both', 'none']),
+    'res': st.sampled_from([2.5e-4, 1.1e-4, 1e-3, 5e-5, 0.0, 2.0, 1.0]),
+    'wvlkey': st.sampled_from(['wavelength', 'Wavelength', 'none']),
+    'wvlarg': st.sampled_from(['default', 'none', 'given', 'zero'])})
+
+
+def build_meta(build):
+    meta = {'serial': 'harness', 'camera_width': 640}
+    if build['reskey'] in ('lateral_resolution', 'both'):
+        meta['lateral_resolution'] = build['res']
+    if build['reskey'] in ('Lateral Resolution', 'both'):
+        meta['Lateral Resolution'] = build['res']
+    if build['wvlkey'] != 'none':
+        meta[build['wvlkey']] = 6.328e-7
+    return meta
+
+
+def build_ifg(ctx, h, dxarg, build):
+    """an Interferogram of the map h whose sample spacing is `dxarg` (> 0), obtained the way `build` says: spacing given to the constructor
+    (positionally / by keyword, with or without a metadata dictionary that names other values, wavelength given / left to the metadata),
+    assigned to the public attribute after a construction without (dx = 0) calibration, or set by latcal() on an object built with
+    dx = 0 / dx = 1 / another spacing.  The explicit spacing is the data's sampling in every one of them."""
+    from prysm.interferogram import Interferogram
+    how = build['how']
+    ctx.label('build:' + how)
+    if how == 'plain':
+        return ctx.call(Interferogram, h, dxarg)
+    if how == 'assigned':
+        ifg = ctx.call(Interferogram, h)
+        ifg.dx = dxarg
+        return ifg
+    meta = build_meta(build)
+    keep = dict(meta)
+    ctx.label('meta:resolution-key:' + build['reskey'], 'meta:wavelength-arg:' + build['wvlarg'])
+    if float(dxarg) in (0.0, 1.0) and build['reskey'] != 'none' and build['res'] not in (0.0, 1e-3):
+        ctx.label('meta:dx-exactly-1-and-metadata-names-another-spacing')
+    kw = {'default': {}, 'none': {'wavelength': None}, 'given': {'wavelength': 0.6328}, 'zero': {'wavelength': 0}}[build['wvlarg']]
+    if how == 'meta':
+        ifg = ctx.call(Interferogram, h, dxarg, meta=meta, **kw)
+    elif how == 'meta-kw':
+        ifg = ctx.call(Interferogram, phase=h, dx=dxarg, intensity=None, meta=meta, **kw)
+    elif how == 'dx0-meta-assigned':
+        ifg = ctx.call(Interferogram, h, 0, meta=meta, **kw)
+        ifg.dx = dxarg
+    elif how in ('latcal-from-0', 'latcal-from-1', 'relatcal'):
+        first = {'latcal-from-0': 0, 'latcal-from-1': 1.0, 'relatcal': 0.37}[how]
+        ifg = ctx.call(Interferogram, h, first, meta=meta, **kw)
+        got = ctx.call(ifg.latcal, dxarg)
+        ctx.require(got is ifg, 'Interferogram.latcal:return', 'latcal() returned %r, not the object' % (got,))
+    else:
+        raise ValueError(how)
+    ctx.require(meta == keep, 'Interferogram:argument-modified', 'the metadata dictionary was changed: %r, was %r' % (meta, keep))
+    return ifg
 
 
 def shape_labels(ctx, shape):
@@ -300,10 +362,21 @@ def edit_in_place(ifg, how, seed):
     return how
 
 
-def method_psd(ctx, ifg, tag, what):
+def held_dx(ctx, ifg, dx, tag):
+    """the spacing the oracle uses: the one the caller gave the object last (constructor / attribute / latcal / strip_latcal) when the
+    caller tracks it, else the one the object reports; the two must agree"""
+    got = ifg.dx
+    if dx is None:
+        return float(got)
+    ctx.require(np.ndim(got) == 0 and float(got) == float(dx), 'Interferogram:dx' + tag,
+                'the object reports dx=%r; the spacing it was given last is %r' % (got, dx))
+    return float(dx)
+
+
+def method_psd(ctx, ifg, tag, what, dx=None):
     """Interferogram.psd() of the data / dx the object holds *now* against the oracle (automatic window); returns the PSD object"""
     h = np.asarray(ifg.data)
-    dx = float(ifg.dx)
+    dx = held_dx(ctx, ifg, dx, tag)
     keep = h.copy()
     w = window_array(ctx, 'auto', None, h, dx)
     rt = rtol_of(h.dtype, w.dtype)
@@ -314,11 +387,11 @@ def method_psd(ctx, ifg, tag, what):
     return p
 
 
-def method_band(ctx, ifg, q, lo_kind, hi_kind, form, tag, api='native'):
+def method_band(ctx, ifg, q, lo_kind, hi_kind, form, tag, api='native', dx=None):
     """Interferogram.bandlimited_rms() over one drawn band and over the full band, of the data / dx the object holds *now*:
     each within [trapezoid sum, plain sum] of the reference PSD samples in the band (full band: up to the windowed mean square)"""
     h = np.asarray(ifg.data)
-    dx = float(ifg.dx)
+    dx = held_dx(ctx, ifg, dx, tag)
     ny, nx = h.shape
     hq = h.astype(np.float64)
     w = window_array(ctx, 'auto', None, h, dx).astype(np.float64)
@@ -354,10 +427,10 @@ def method_band(ctx, ifg, q, lo_kind, hi_kind, form, tag, api='native'):
     return out
 
 
-def method_tis(ctx, ifg, q, limit, ang, tag, api='native'):
+def method_tis(ctx, ifg, q, limit, ang, tag, api='native', dx=None):
     """Interferogram.total_integrated_scatter(lambda, angle) of the data / dx the object holds *now* against its formula"""
     h = np.asarray(ifg.data)
-    dx = float(ifg.dx)
+    dx = held_dx(ctx, ifg, dx, tag)
     ny, nx = h.shape
     hq = h.astype(np.float64)
     w = window_array(ctx, 'auto', None, h, dx).astype(np.float64)
@@ -404,7 +477,7 @@ def psd_fields(tier):
             'hdtype': st.sampled_from(HDTYPES), 'hlayout': U.layouts, 'wlayout': U.layouts,
             'again': st.sampled_from([False, False, True]), 'dxform': st.sampled_from(SCALARS),
             'call': st.sampled_from(['positional', 'positional', 'keyword', 'window-omitted']),
-            'edit': st.one_of(st.none(), st.lists(st.sampled_from(EDITS), min_size=1, max_size=3))}
+            'edit': st.one_of(st.none(), st.lists(st.sampled_from(EDITS), min_size=1, max_size=3)), 'build': build_strategy}
 
 
 def strat_psd(tier):
@@ -499,6 +572,8 @@ def check_psd(case, ctx):
         if route == 'method':
             if made:
                 ifg = made[0]         # the same object again (after its data were edited in place)
+            elif case.get('build') is not None:
+                ifg = build_ifg(ctx, h, dxarg, case['build'])
             elif case.get('seed', 0) % 3 == 0:
                 # the spacing assigned through the public attribute after construction (dx is a plain attribute of the class)
                 ifg = ctx.call(Interferogram, h)
@@ -562,7 +637,8 @@ def strat_sinus(tier):
             'shape': st.just(shape), 'dx': dx_strategy,
             'ky': st.integers(-((ny - 1) // 2), (ny - 1) // 2), 'kx': st.integers(-((nx - 1) // 2), (nx - 1) // 2),
             'phase': st.sampled_from([0.0, 0.7, 1.5707963267948966, 2.9]), 'amp': st.sampled_from([1.0, 0.02, 35.0]),
-            'route': st.sampled_from(['function', 'function', 'method']), 'hlayout': U.layouts, 'dxform': st.sampled_from(SCALARS)})
+            'route': st.sampled_from(['function', 'function', 'method']), 'hlayout': U.layouts, 'dxform': st.sampled_from(SCALARS),
+            'build': build_strategy})
     return shape_strategy(tier).flatmap(build)
 
 
@@ -613,7 +689,7 @@ def check_sinus(case, ctx):
             rest &= ~at
         ctx.require(float(P[rest].max()) <= 1e-9 * want, bucket + ':leak', 'power %.3g outside the two peaks (peak %.3g)' % (float(P[rest].max()), want))
     else:
-        p = ctx.call(Interferogram(h, dxarg).psd)
+        p = ctx.call((build_ifg(ctx, h, dxarg, case['build']) if case.get('build') is not None else Interferogram(h, dxarg)).psd)
         ux, uy, P = np.asarray(p.x), np.asarray(p.y), np.asarray(p.data)
         U.check_shape(P, shape, 'psd', 'psd array')
         U.check_shape(ux, shape, 'psd:axes', 'p.x')
@@ -638,7 +714,7 @@ def brms_fields(tier):
         'api': st.sampled_from(['native', 'trapz-only', 'trapezoid-only']),
         'rlayout': U.layouts, 'playout': U.layouts, 'hdtype': st.sampled_from(['f8', 'f8', 'f4', 'i2']),
         'edgeform': st.sampled_from(SCALARS),
-        'edit': st.one_of(st.none(), st.lists(st.sampled_from(EDITS), min_size=1, max_size=2)),
+        'edit': st.one_of(st.none(), st.lists(st.sampled_from(EDITS), min_size=1, max_size=2)), 'build': build_strategy,
     }
 
 
@@ -725,7 +801,9 @@ def check_brms(case, ctx):
     hi = {'edge': c, 'none': None, 'beyond': 2.5 * rmax}[case['hi']]
     hi_eff = c if hi is not None and hi < rmax else math.inf
 
-    ifg = ctx.call(Interferogram, h_in, dx) if route == 'method' else None
+    ifg = None
+    if route == 'method':
+        ifg = build_ifg(ctx, h_in, dx, case['build']) if case.get('build') is not None else ctx.call(Interferogram, h_in, dx)
     R_in, P_in = U.relayout(R, rlayout), U.relayout(Pin, playout)
     keep_R, keep_P = R_in.copy(), P_in.copy()
 
@@ -800,7 +878,7 @@ def tis_fields(tier):
             'q': st.integers(0, 10 ** 6), 'limit': st.sampled_from(['edge', 'edge', 'beyond']),
             'angle': st.sampled_from([0.0, 30.0, 60.0]), 'api': st.sampled_from(['native', 'trapz-only', 'trapezoid-only']),
             'hlayout': U.layouts, 'wvlform': st.sampled_from(SCALARS), 'angleform': st.sampled_from(['scalar', 'scalar', '0d', 'array', 'int']),
-            'edit': st.one_of(st.none(), st.none(), st.lists(st.sampled_from(EDITS), min_size=1, max_size=2))}
+            'edit': st.one_of(st.none(), st.none(), st.lists(st.sampled_from(EDITS), min_size=1, max_size=2)), 'build': build_strategy}
 
 
 def strat_tis(tier):
@@ -828,7 +906,7 @@ def check_tis(case, ctx):
     wvl = 1000.0 / f_lim          # wavelength in um whose 1/lambda is f_lim cy/mm
     ang = case['angle']
     h_in = U.relayout(h, case.get('hlayout', 'C'))
-    ifg = ctx.call(Interferogram, h_in, dx)
+    ifg = build_ifg(ctx, h_in, dx, case['build']) if case.get('build') is not None else ctx.call(Interferogram, h_in, dx)
     # "incident_angle : float or ndarray": the drawn angle alone, or as one entry of a vector of angles (the answer is then a vector)
     aform = case.get('angleform', 'scalar')
     angles = [15.0, ang, 75.0]
@@ -1117,7 +1195,8 @@ class GridModel:
 # ---- clause 7: one Interferogram object through its life -----------------------------------------------
 def strat_obj(tier):
     return st.fixed_dictionaries({'shape': shape_strategy(tier), 'dx': dx_strategy, 'seed': U.seeds, 'map': st.sampled_from(MAPS),
-                                  'hdtype': st.sampled_from(['f8', 'f8', 'f8', 'f4', 'i2']), 'hlayout': U.layouts, 'amp': st.sampled_from([1.0, 1e-3, 250.0])})
+                                  'hdtype': st.sampled_from(['f8', 'f8', 'f8', 'f4', 'i2']), 'hlayout': U.layouts, 'amp': st.sampled_from([1.0, 1e-3, 250.0]),
+                                  'build': build_strategy})
 
 
 def strat_obj_op(tier):
@@ -1133,8 +1212,11 @@ def strat_obj_op(tier):
         'method': st.fixed_dictionaries({'op': st.just('method'), 'name': st.sampled_from(['remove_piston', 'remove_tiptilt', 'fill'])}),
         'scribble': st.fixed_dictionaries({'op': st.just('scribble')}),
         'read_stats': st.fixed_dictionaries({'op': st.just('read_stats')}),
+        'latcal': st.fixed_dictionaries({'op': st.just('latcal'), 'dx': dx_strategy, 'dxform': st.sampled_from(SCALARS)}),
+        'strip_latcal': st.fixed_dictionaries({'op': st.just('strip_latcal')}),
+        'set_meta': st.fixed_dictionaries({'op': st.just('set_meta'), 'build': build_strategy}),
     }
-    weighted = ['psd'] * 4 + ['brms'] * 3 + ['tis'] + ['edit'] * 5 + ['rebind', 'set_dx', 'method', 'scribble', 'read_stats']
+    weighted = ['psd'] * 4 + ['brms'] * 3 + ['tis'] + ['edit'] * 5 + ['rebind', 'set_dx', 'method', 'scribble', 'read_stats', 'latcal', 'strip_latcal', 'set_meta']
     return st.sampled_from(weighted).flatmap(lambda k: table[k])
 
 
@@ -1151,7 +1233,9 @@ class ObjectModel:
         self.ctx = ctx
         self.shape = tuple(init['shape'])
         h = U.relayout(cast_map(make_map(init['map'], init['seed'], self.shape, init['amp']), init['hdtype']), init['hlayout'])
-        self.ifg = ctx.call(Interferogram, h, init['dx'])
+        # the spacing the object was given last: the oracle's dx (None for replays recorded before it was tracked: then the object's own)
+        self.dx = float(init['dx']) if init.get('build') is not None else None
+        self.ifg = build_ifg(ctx, h, init['dx'], init['build']) if init.get('build') is not None else ctx.call(Interferogram, h, init['dx'])
         self.done = []
         self.last_psd = None
         shape_labels(ctx, self.shape)
@@ -1178,7 +1262,7 @@ class ObjectModel:
                     ctx.label('life:spectral-call-after:' + d)
                 if 'edit' in since:
                     tag = ':after-inplace-edit'
-                elif 'rebind' in since or 'set_dx' in since:
+                elif 'rebind' in since or 'set_dx' in since or 'latcal' in since or 'strip_latcal' in since or 'set_meta' in since:
                     tag = ':after-attribute-assignment'
                 elif 'method' in since:
                     tag = ':after-inplace-method'
@@ -1190,13 +1274,13 @@ class ObjectModel:
             raise RuntimeError('harness: %s made the map non-finite' % what)
 
     def op_psd(self, op, tag):
-        self.last_psd = method_psd(self.ctx, self.ifg, tag, 'Interferogram.psd() after %s' % (self.done[-4:],))
+        self.last_psd = method_psd(self.ctx, self.ifg, tag, 'Interferogram.psd() after %s' % (self.done[-4:],), dx=self.dx)
 
     def op_brms(self, op, tag):
-        method_band(self.ctx, self.ifg, op['q'], op['lo'], op['hi'], op['form'], tag)
+        method_band(self.ctx, self.ifg, op['q'], op['lo'], op['hi'], op['form'], tag, dx=self.dx)
 
     def op_tis(self, op, tag):
-        method_tis(self.ctx, self.ifg, op['q'], op['limit'], op['angle'], tag)
+        method_tis(self.ctx, self.ifg, op['q'], op['limit'], op['angle'], tag, dx=self.dx)
 
     def op_edit(self, op, tag):
         self.ctx.label('inplace-edit:' + edit_in_place(self.ifg, op['how'], op['seed']))
@@ -1208,6 +1292,24 @@ class ObjectModel:
 
     def op_set_dx(self, op, tag):
         self.ifg.dx = scalar_form(op['dx'], op['dxform'])
+        if self.dx is not None:
+            self.dx = float(op['dx'])
+
+    def op_latcal(self, op, tag):
+        """the object's own calibration method: the spacing is the plate scale from now on"""
+        self.ctx.call(self.ifg.latcal, scalar_form(op['dx'], op['dxform']))
+        if self.dx is not None:
+            self.dx = float(op['dx'])
+
+    def op_strip_latcal(self, op, tag):
+        """back to pixels: documented to leave a spacing of 1 (sample index units)"""
+        self.ctx.call(self.ifg.strip_latcal)
+        if self.dx is not None:
+            self.dx = 1.0
+
+    def op_set_meta(self, op, tag):
+        """a metadata dictionary assigned to the public attribute (it names other spacings; the object's calibration is not touched)"""
+        self.ifg.meta = build_meta(op['build'])
 
     def op_method(self, op, tag):
         """the object's own in-place methods (they keep a finite map finite); integer maps only take fill()"""
